@@ -422,12 +422,8 @@ func reifyValue(
 	if t.Kind() == reflect.Interface && t.NumMethod() == 0 {
 		reified, err := val.reify(opts.opts)
 		if err != nil {
-			if e, ok := err.(Error); ok {
-				// a setting below val failed: it is named by the error already
-				return reflect.Value{}, e
-			}
-			ctx := val.Context()
-			return reflect.Value{}, raisePathErr(err, val.meta(), "", ctx.path("."))
+			// (a setting below val that failed is named by the error already)
+			return reflect.Value{}, raiseAt(err, val)
 		}
 		// the validate tags of an interface{} field apply to what it is given
 		if err := runValidators(reified, opts.validators); err != nil {
